@@ -167,6 +167,15 @@ class ElectronRepulsionIntegral(BaseFourIndexSymmetric):
         )
         if swap_bra_ket:
             cont_one, cont_two, cont_three, cont_four = cont_three, cont_four, cont_one, cont_two
+        # Within each pair the angular momentum is built up on the first shell and then transferred to
+        # the second one. This loses fewer digits when the first shell is the tighter of the two (the
+        # centre of the product Gaussian is then close to the centre the recursion works on).
+        swap_one_two = cont_one.exps.max() < cont_two.exps.max()
+        if swap_one_two:
+            cont_one, cont_two = cont_two, cont_one
+        swap_three_four = cont_three.exps.max() < cont_four.exps.max()
+        if swap_three_four:
+            cont_three, cont_four = cont_four, cont_three
 
         if cont_one.angmom == cont_two.angmom == cont_three.angmom == cont_four.angmom == 0:
             integrals = _compute_two_elec_integrals_angmom_zero(
@@ -209,6 +218,10 @@ class ElectronRepulsionIntegral(BaseFourIndexSymmetric):
                 cont_four.coeffs,
             )
         integrals = np.transpose(integrals, (4, 0, 5, 1, 6, 2, 7, 3))
+        if swap_three_four:
+            integrals = np.transpose(integrals, (0, 1, 2, 3, 6, 7, 4, 5))
+        if swap_one_two:
+            integrals = np.transpose(integrals, (2, 3, 0, 1, 4, 5, 6, 7))
         if swap_bra_ket:
             integrals = np.transpose(integrals, (4, 5, 6, 7, 0, 1, 2, 3))
 
